@@ -439,3 +439,248 @@ def run_image(memories, externals, calls, tag="img", timeout=120):
         idx = [i for i, c in enumerate(pending) if c["id"] == began]
         pending = pending[idx[0] + 1:] if idx else []
     return results
+
+
+# ===========================================================================
+# single-instruction probe (C07)
+
+SCRATCH = 0x0D000000
+SCRATCH_SIZE = 0x4000
+SCRATCH_MID = SCRATCH + 0x2000
+PROBE_RSP = SCRATCH + 0x3F00          # private stack pointer (fixed implicit state)
+STATE_IN = 0x0E000000
+STATE_OUT = 0x0E001000
+HOST_AREA = 0x0E002000
+CODE_PAGE = 0x0C000000
+FLAG_MASK = 0x8D5                     # CF PF AF ZF SF OF
+GPR_NAMES = ["rax", "rcx", "rdx", "rbx", "rsp", "rbp", "rsi", "rdi", "r8", "r9", "r10", "r11", "r12", "r13", "r14", "r15"]
+RECORD = 16 + 128 + 8 + 256 + 8
+RESULT = 8 + 128 + 8 + 256 + 8 + 64 + 8
+
+
+def _abs_modrm(reg):
+    return bytes([((reg & 7) << 3) | 4, 0x25])
+
+
+def _mov_load(reg, addr):
+    return bytes([0x48 | ((reg >> 3) << 2), 0x8B]) + _abs_modrm(reg) + struct.pack("<I", addr)
+
+
+def _mov_store(reg, addr):
+    return bytes([0x48 | ((reg >> 3) << 2), 0x89]) + _abs_modrm(reg) + struct.pack("<I", addr)
+
+
+def _movdqu(x, addr, store):
+    rex = bytes([0x44]) if x >= 8 else b""
+    return b"\xF3" + rex + bytes([0x0F, 0x7F if store else 0x6F]) + _abs_modrm(x) + struct.pack("<I", addr)
+
+
+def probe_prologue():
+    code = b""
+    for k, reg in enumerate((4, 3, 5, 12, 13, 14, 15)):            # host rsp, rbx, rbp, r12..r15
+        code += _mov_store(reg, HOST_AREA + 8 * k)
+    code += b"\xFF\x34\x25" + struct.pack("<I", STATE_IN + 128) + b"\x9D"      # push [flags]; popfq
+    for x in range(16):
+        code += _movdqu(x, STATE_IN + 256 + 16 * x, False)
+    for reg in range(16):
+        if reg != 4:
+            code += _mov_load(reg, STATE_IN + 8 * reg)
+    code += _mov_load(4, STATE_IN + 8 * 4)
+    return code
+
+
+def probe_epilogue():
+    code = b""
+    for reg in range(16):
+        code += _mov_store(reg, STATE_OUT + 8 * reg)
+    code += _mov_load(4, HOST_AREA)
+    code += b"\x9C" + b"\x8F\x04\x25" + struct.pack("<I", STATE_OUT + 128)     # pushfq; pop [flags]
+    for x in range(16):
+        code += _movdqu(x, STATE_OUT + 256 + 16 * x, True)
+    for k, reg in enumerate((4, 3, 5, 12, 13, 14, 15)):
+        if reg != 4:
+            code += _mov_load(reg, HOST_AREA + 8 * k)
+    code += b"\xFC\xC3"                                                        # cld; ret
+    return code
+
+
+PROBE_C = r'''
+#define _GNU_SOURCE
+#include <stdio.h>
+#include <stdlib.h>
+#include <string.h>
+#include <stdint.h>
+#include <sys/mman.h>
+#include <signal.h>
+#include <setjmp.h>
+#include <unistd.h>
+
+#define SCRATCH 0x0D000000UL
+#define SCRATCH_SIZE 0x4000UL
+#define STATE_IN 0x0E000000UL
+#define STATE_OUT 0x0E001000UL
+#define CODE_PAGE 0x0C000000UL
+
+static sigjmp_buf env;
+static void on_fault(int sig) { siglongjmp(env, sig); }
+
+static void *map(unsigned long a, unsigned long n, int prot) {
+  void *p = mmap((void *)a, n, prot, MAP_PRIVATE | MAP_ANONYMOUS | MAP_FIXED, -1, 0);
+  if (p == MAP_FAILED) { perror("mmap"); _exit(3); }
+  return p;
+}
+
+static unsigned char shadow[SCRATCH_SIZE];
+static uint64_t shadow_seed = 0;
+static int shadow_valid = 0;
+
+static void fill(uint64_t seed) {
+  uint64_t x = seed * 0x9E3779B97F4A7C15ULL + 0x1234567ULL, *p = (uint64_t *)shadow;
+  unsigned long i;
+  if (shadow_valid && shadow_seed == seed) return;
+  for (i = 0; i < SCRATCH_SIZE / 8; i++) { x ^= x << 13; x ^= x >> 7; x ^= x << 17; p[i] = x; }
+  shadow_seed = seed; shadow_valid = 1;
+}
+
+int main(int argc, char **argv) {
+  FILE *f;
+  unsigned char hdr[8], rec[RECORD], *pro, *epi, *code, *scratch, res[RESULT];
+  uint32_t npro, nepi;
+  stack_t ss;
+  struct sigaction sa;
+  int sigs[] = {SIGSEGV, SIGBUS, SIGFPE, SIGILL, SIGTRAP}, i;
+  if (argc < 2 || !(f = fopen(argv[1], "rb"))) return 3;
+  if (fread(hdr, 1, 8, f) != 8) return 3;
+  memcpy(&npro, hdr, 4); memcpy(&nepi, hdr + 4, 4);
+  pro = malloc(npro); epi = malloc(nepi);
+  if (fread(pro, 1, npro, f) != npro || fread(epi, 1, nepi, f) != nepi) return 3;
+  scratch = map(SCRATCH, SCRATCH_SIZE, PROT_READ | PROT_WRITE);
+  map(STATE_IN, 0x3000, PROT_READ | PROT_WRITE);
+  code = map(CODE_PAGE, 0x2000, PROT_READ | PROT_WRITE | PROT_EXEC);
+  ss.ss_sp = malloc(1 << 16); ss.ss_size = 1 << 16; ss.ss_flags = 0;
+  sigaltstack(&ss, NULL);
+  memset(&sa, 0, sizeof sa);
+  sa.sa_handler = on_fault; sa.sa_flags = SA_ONSTACK | SA_NODEFER;
+  for (i = 0; i < 5; i++) sigaction(sigs[i], &sa, NULL);
+  while (fread(rec, 1, RECORD, f) == RECORD) {
+    unsigned n = rec[0], lo, hi;
+    uint64_t seed, h = 1469598103934665603ULL;
+    volatile int fault;
+    memcpy(&seed, rec + 16 + 128 + 8 + 256, 8);
+    fill(seed);
+    memcpy(scratch, shadow, SCRATCH_SIZE);
+    memcpy((void *)STATE_IN, rec + 16, 128 + 8);
+    memcpy((void *)(STATE_IN + 256), rec + 16 + 136, 256);
+    memset((void *)STATE_OUT, 0xEE, 512);
+    if (memcmp(code + npro, rec + 1, n) != 0 || memcmp(code + npro + n, epi, nepi) != 0 || code[0] != pro[0]) {
+      memcpy(code, pro, npro);
+      memcpy(code + npro, rec + 1, n);
+      memcpy(code + npro + n, epi, nepi);
+    }
+    fault = sigsetjmp(env, 1);
+    if (fault == 0) ((void (*)(void))code)();
+    memset(res, 0, RESULT);
+    memcpy(res, (const void *)&fault, 4);
+    memcpy(res + 8, (void *)STATE_OUT, 136);
+    memcpy(res + 8 + 136, (void *)(STATE_OUT + 256), 256);
+    lo = SCRATCH_SIZE;
+    if (memcmp(scratch, shadow, SCRATCH_SIZE) != 0)
+      for (lo = 0; lo < SCRATCH_SIZE && scratch[lo] == shadow[lo]; lo++) ;
+    if (lo < SCRATCH_SIZE) {
+      unsigned k, cnt;
+      for (hi = SCRATCH_SIZE - 1; scratch[hi] == shadow[hi]; hi--) ;
+      cnt = hi - lo + 1;
+      memcpy(res + 8 + 136 + 256, &lo, 4);
+      memcpy(res + 8 + 136 + 256 + 4, &cnt, 4);
+      memcpy(res + 8 + 136 + 256 + 8, scratch + lo, cnt < 64 ? cnt : 64);
+      for (k = lo; k <= hi; k++) { h ^= scratch[k]; h *= 1099511628211ULL; }
+    }
+    memcpy(res + 8 + 136 + 256 + 8 + 64, &h, 8);
+    fwrite(res, 1, RESULT, stdout);
+  }
+  fflush(stdout);
+  return 0;
+}
+'''
+
+
+def build_probe():
+    return _build("x86probe", PROBE_C, ["-DRECORD=%d" % RECORD, "-DRESULT=%d" % RESULT])
+
+
+def pack_probe(p):
+    code = bytes(p["code"])
+    if not 0 < len(code) <= 15:
+        raise ValueError("instruction length %d" % len(code))
+    gpr = list(p["gpr"])
+    gpr[4] = PROBE_RSP
+    flags = 0x202 | (p.get("flags", 0) & FLAG_MASK)
+    out = bytes([len(code)]) + code.ljust(15, b"\x90")
+    out += struct.pack("<16Q", *[g & 0xFFFFFFFFFFFFFFFF for g in gpr]) + struct.pack("<Q", flags)
+    for x in p["xmm"]:
+        out += (x & ((1 << 128) - 1)).to_bytes(16, "little")
+    out += struct.pack("<Q", p.get("seed", 0) & 0xFFFFFFFFFFFFFFFF)
+    return out
+
+
+def unpack_result(b):
+    fault = struct.unpack_from("<i", b, 0)[0]
+    gpr = list(struct.unpack_from("<16Q", b, 8))
+    flags = struct.unpack_from("<Q", b, 8 + 128)[0]
+    xmm = [int.from_bytes(b[8 + 136 + 16 * i: 8 + 136 + 16 * i + 16], "little") for i in range(16)]
+    lo, cnt = struct.unpack_from("<II", b, 8 + 136 + 256)
+    data = b[8 + 136 + 256 + 8: 8 + 136 + 256 + 8 + min(cnt, 64)]
+    h = struct.unpack_from("<Q", b, 8 + 136 + 256 + 8 + 64)[0]
+    return {"fault": fault, "gpr": gpr, "flags": flags & FLAG_MASK, "xmm": xmm,
+            "mem": (lo, cnt, bytes(data), h) if cnt else None}
+
+
+def run_probes(probes, tag="probe", timeout=120):
+    """Execute probes (dicts: code bytes, gpr[16], xmm[16], flags, seed) -> list of results in order.
+
+    result: {"fault": 0 | signal number, "gpr": [16], "flags", "xmm": [16], "mem": None | (offset of the first
+    changed scratch byte, length of the changed span, first 64 bytes of the span, hash of the span)};
+    {"fault": -1} if the probe killed the host process even when run alone (or the watchdog fired)."""
+    exe = build_probe()
+    header = None
+    results = [None] * len(probes)
+
+    def run(idxs):
+        nonlocal header
+        if header is None:
+            pro, epi = probe_prologue(), probe_epilogue()
+            header = struct.pack("<II", len(pro), len(epi)) + pro + epi
+        path = os.path.join(_tmp(), "%s_%d.bin" % (tag, os.getpid()))
+        with open(path, "wb") as f:
+            f.write(header)
+            for i in idxs:
+                f.write(pack_probe(probes[i]))
+        try:
+            p = subprocess.run([exe, path], capture_output=True, timeout=timeout, stdin=subprocess.DEVNULL)
+            out, ok = p.stdout, p.returncode == 0
+        except subprocess.TimeoutExpired as e:
+            out, ok = e.stdout or b"", False
+        finally:
+            try:
+                os.unlink(path)
+            except OSError:
+                pass
+        n = len(out) // RESULT
+        for k in range(min(n, len(idxs))):
+            results[idxs[k]] = unpack_result(out[k * RESULT:(k + 1) * RESULT])
+        if ok and n == len(idxs):
+            return
+        rest = idxs[n:]
+        if not rest:
+            return
+        if len(rest) == 1 or n == 0 and len(idxs) == 1:
+            results[rest[0]] = {"fault": -1}
+            return
+        # the probe after the last answered one killed the process: isolate it, continue behind it
+        results[rest[0]] = {"fault": -1}
+        if len(rest) > 1:
+            run(rest[1:])
+
+    if probes:
+        run(list(range(len(probes))))
+    return results
